@@ -236,7 +236,7 @@ def gen_scenario(rng, max_jobs=8, hooks=None, cyclic=False, force=None):
     maxn = rng.choice([1, 2, 3, None])
     for g in range(ngroups):
         groups.append({"name": f"g{g}", "size": rng.randint(1, 4), "time": rng.random() < 0.4,
-                       "wall_min": rng.choice([5, 6, 8, 10]), "nproc": rng.choice([1, 2, None]) ,
+                       "wall_min": rng.choice([5, 6, 8, 10]), "wall_sec": rng.choice([0, 0, 0, 30, 45]), "nproc": rng.choice([1, 2, None]) ,
                        "try": rng.random() < 0.6})
         if groups[-1]["time"] and groups[-1]["nproc"] is None:
             groups[-1]["nproc"] = 1
@@ -633,12 +633,16 @@ def apply_action(vc, act, rng):
             return None
         i = ids[rng.randrange(len(ids))]
         vc.hpc[i]["state"] = "SUSPENDED"
-        vc.trace.append({"k": "batch_suspended", "p": 0, "id": i})
+        # what squeue prints for the held batch: a state jade does not map (suspended, stopped) or one after which SLURM
+        # may put the batch back into the queue (preempted, node failure with JobRequeue); the batch goes on later
+        vc.hpc[i]["shown"] = act.get("shown") or rng.choice(["SUSPENDED", "SUSPENDED", "STOPPED", "PREEMPTED", "NODE_FAIL", "REQUEUED"])
+        vc.trace.append({"k": "batch_suspended", "p": 0, "id": i, "shown": vc.hpc[i]["shown"]})
         return "suspend:" + i
     if do == "resume":
         for i, b in vc.hpc.items():
             if b["state"] == "SUSPENDED":
                 b["state"] = "RUNNING"
+                b.pop("shown", None)
                 vc.trace.append({"k": "batch_resumed", "p": 0, "id": i})
         return "resume"
     if do == "locktimeout":
